@@ -20,7 +20,8 @@ RULE = (
     "{auto, unit} or explicit bin_specs of every supported kind (binWidth/origin, num/low/high, edges, centers, "
     "thresholds, max, min, sum, average, deviate, bag, fraction, cut); with and without time_axis; a partition of the "
     "rows into 1..5 non-empty chunks; in a third of the cases a frame with the same column names but other column "
-    "types is histogrammed first (results must not depend on earlier calls).  Oracle: every returned histogram has entries == len(df); its document equals "
+    "types is histogrammed first (results must not depend on earlier calls).  Oracle: every returned histogram has entries == len(df); with unit binning the returned specification "
+    "of every dimension is the one the request prescribes; its document equals "
     "(names stripped) that of a tree the harness builds independently from the returned bin_specs / var_dtype with the "
     "public constructors and fills from the columns with fill.numpy and, for frames of <= 12 rows, row by row "
     "(timestamps as int64 ns, NaT -> 0 as filling_utils.to_ns documents); make_histograms(chunk_i, features, bin_specs, "
@@ -227,6 +228,13 @@ def build_direct(bin_specs, feat):
     return h
 
 
+def _same_spec(a, b):
+    def n(s_):
+        return {k: ([float(x) for x in v] if isinstance(v, (list, tuple)) else float(v) if isinstance(v, (int, float)) and not isinstance(v, bool) else v) for k, v in s_.items()}
+
+    return n(a) == n(b)
+
+
 def ndoc(h):
     return norm.strip_empty_types(norm.norm(h.toJson(), names=False, drop_zero=True))
 
@@ -291,6 +299,15 @@ def check(case):  # noqa: PLR0915
     for name, h in hists.items():
         feat = name.split(":")
         multi = multi or len(feat) > 1
+        if case["binning"] == "unit":
+            # with unit binning nothing is derived from the data: the binning of every dimension is the one the REQUEST
+            # prescribes (its n-dim entry, else its 1-dim entry, else the documented default), whatever was
+            # histogrammed before it
+            for idx, c in enumerate(feat):
+                if c == "b1":
+                    continue
+                want_s, got_s = spec_for(case["bin_specs"], feat, idx, c == "t1"), spec_for(bin_specs, feat, idx, c == "t1")
+                require(_same_spec(want_s, got_s), "binning-not-as-requested", f"feature {name}, dimension {c}: the request prescribes {want_s}, the returned specification says {got_s}", {"what": "returned-spec"})
         require(h.entries == n, "entries-not-rows", f"feature {name}: entries = {h.entries!r} for a dataframe of {n} rows", {"what": "entries"})
         twin = build_direct(bin_specs, feat)
         twin.fill.numpy(data)
